@@ -173,8 +173,8 @@ func WorkerMain(t *testing.T, w World) {
 		cfg := Config{
 			Seed: sc.Sched.Seed, SelSeed: sc.Sched.SelSeed, Strategy: sc.Sched.Strategy,
 			StallProb: sc.Sched.StallProb, MaxSteps: sc.Sched.MaxSteps,
-			Horizon:   time.Duration(sc.Sched.HorizonS) * time.Second,
-			Replay:    decisions, UseReplay: useReplay, LogEvents: spec.WithEvents,
+			Horizon: time.Duration(sc.Sched.HorizonS) * time.Second,
+			Replay:  decisions, UseReplay: useReplay, LogEvents: spec.WithEvents,
 		}
 		cryptotest.SetGlobalRandom(t, uint64(sc.GenSeed)^0x5eed)
 		t0 := time.Now()
